@@ -106,6 +106,21 @@ Proof.
   specialize (H4 inner tg o). destruct (o_leaf I inner tg o); simpl in *. apply tr_wrap_nu; auto.
 Qed.
 
+Lemma ad_wrap_nu : forall an ac ow pre r, nouaf pre -> nouaf (r_ev r) -> nouaf (b_ev (ad_wrap an ac ow pre r)).
+Proof.
+  intros an ac ow pre r Hp H. unfold ad_wrap. destruct (r_out r) as [[[] o]|]; simpl; repeat one.
+  - destruct an; simpl; repeat one. destruct o; simpl; repeat one.
+  - destruct ac; simpl; repeat one.
+Qed.
+Lemma ad_pre_nu : forall a, nouaf (ad_pre a).
+Proof. destruct a; simpl; repeat one. Qed.
+Lemma ad_nu : forall an ac I, nu I -> nur (ad_ops an ac I).
+Proof.
+  intros an ac I [H1 H2 H3 H4 H5]. constructor; intros; simpl; destruct b; simpl; try apply nouaf_nil;
+    destruct k; simpl; try apply nouaf_nil; try (apply ad_wrap_nu; auto; try apply ad_pre_nu; apply nouaf_nil).
+  specialize (H4 inner tg o). destruct (o_leaf I inner tg o); simpl in *. apply ad_wrap_nu; auto. apply nouaf_nil.
+Qed.
+
 Lemma fi_loop_nu : forall p I, nu I -> forall fuel fs r, nouaf (r_ev r) -> nouaf (b_ev (fi_loop p I fuel fs r)).
 Proof.
   intros p I HI. induction fuel; intros fs r Hr; simpl;
@@ -281,6 +296,7 @@ Proof.
   induction e; simpl; apply wrap_nu.
   - apply range_nu. - apply single_nu. - apply src_nu. - apply never_nu.
   - apply tr_nu; auto. - apply fi_nu; auto. - apply tu_nu; auto. - apply si_nu; auto. - apply te_nu; auto.
+  - apply ad_nu; auto. - apply ad_nu; auto. - apply ad_nu; auto. - apply ad_nu; auto.
 Qed.
 
 (* ---- whole runs -------------------------------------------------------------------------------------------------- *)
